@@ -277,9 +277,10 @@ static int step(prog_t* P) {
       val_t* b = pick(P, T_ZNX);
       if (!a || !b) return 0;
       if (norminf(a->x, a->size * N) + norminf(b->x, b->size * N) >= 0x1p62L) return 0;
-      const int inplace = (rng_u64(r) % 4) == 0 && a != b;
-      const uint64_t rs = inplace ? a->size : rsize(P);
-      val_t* res = inplace ? a : newval(P, T_ZNX, rs, rstride(P), "");
+      const uint64_t ipsel = rng_u64(r) % 4;
+      const int inplace = a != b ? (ipsel == 0 ? 1 : (ipsel == 1 ? 2 : 0)) : 0;  // res == a, res == b (same pointer, same stride), or a new vector
+      const uint64_t rs = inplace == 1 ? a->size : (inplace == 2 ? b->size : rsize(P));
+      val_t* res = inplace == 1 ? a : (inplace == 2 ? b : newval(P, T_ZNX, rs, rstride(P), ""));
       if (!res) return 0;
       i128* nx = calloc((rs ? rs : 1) * N, sizeof(i128));
       for (uint64_t l = 0; l < rs; l++)
@@ -292,7 +293,7 @@ static int step(prog_t* P) {
       free(res->x);
       res->x = nx;
       res->producer = choice == 5 ? "vec_znx_add" : "vec_znx_sub";
-      cntf("op:%s%s", 1, res->producer, inplace ? "(in place)" : "");
+      cntf("op:%s%s", 1, res->producer, inplace == 1 ? "(in place)" : (inplace == 2 ? "(in place, res==b)" : ""));
       check_value(P, res, res->producer);
       return 1;
     }
@@ -472,9 +473,11 @@ static int step(prog_t* P) {
       val_t* b = pick(P, (rng_u64(r) & 1) ? T_BIG : T_ZNX);
       if (!a || !b) return 0;
       if (norminf(a->x, a->size * N) + norminf(b->x, b->size * N) >= 0x1p62L) return 0;
-      const int inplace = a->type == T_BIG && (rng_u64(r) % 4) == 0 && a != b;
-      const uint64_t rs = inplace ? a->size : rsize(P);
-      val_t* res = inplace ? a : newval(P, T_BIG, rs, 0, "");
+      // in place: the output is the first input (one call in four) or the SECOND input (one in four), when that input is a big vector
+      const uint64_t ipsel = rng_u64(r) % 4;
+      const int inplace = a == b ? 0 : ((ipsel == 0 && a->type == T_BIG) ? 1 : ((ipsel == 1 && b->type == T_BIG) ? 2 : 0));
+      const uint64_t rs = inplace == 1 ? a->size : (inplace == 2 ? b->size : rsize(P));
+      val_t* res = inplace == 1 ? a : (inplace == 2 ? b : newval(P, T_BIG, rs, 0, ""));
       if (!res) return 0;
       i128* nx = calloc((rs ? rs : 1) * N, sizeof(i128));
       const int sub = choice == 18;
@@ -503,7 +506,7 @@ static int step(prog_t* P) {
       free(res->x);
       res->x = nx;
       res->producer = nm;
-      cntf("op:%s%s", 1, nm, inplace ? "(in place)" : "");
+      cntf("op:%s%s", 1, nm, inplace == 1 ? "(in place)" : (inplace == 2 ? "(in place, res==b)" : ""));
       if (a->type == T_BIG && strncmp(a->producer, "vec_znx_idft", 12) == 0) P->coeff_after_idft++;
       check_value(P, res, nm);
       return 1;
@@ -685,5 +688,13 @@ void run_C16(void) {
         if (cfg == DISP_GENERIC && (i & 1)) continue;
         ops_recontent_case("C16 entry points", RNAMES, (int)ARRAY_LEN(RNAMES), RN[i], cfg, G.thorough ? 40 : 6, (unsigned)i, "same_buffers_other_data_calls");
       }
+    // and from a thread with a small stack, at the largest dimensions
+    for (int cfg = DISP_NATIVE; cfg >= DISP_GENERIC; cfg--) {
+      ops_small_stack_case("C16 entry points", RNAMES, (int)ARRAY_LEN(RNAMES), 65536, cfg, 256, G.thorough ? 4 : 1, 0, "small_stack_calls");
+      ops_small_stack_case("C16 entry points", RNAMES, (int)ARRAY_LEN(RNAMES), 16384, cfg, 256, G.thorough ? 4 : 2, 1, "small_stack_calls");
+    }
   }
+  // several threads creating, using and destroying their own modules / tables at the same time
+  for (unsigned rep = 0; rep < (G.thorough ? 60u : 8u); rep++)
+    ops_concurrent_lifecycle_case("C16 objects", LKM_MOD_NTT120 | LKM_MOD_FFT64, (rep % 4) == 3 ? DISP_GENERIC : DISP_NATIVE, rep & 1 ? 8 : 4, 120, rep, "concurrent_lifecycle_uses");
 }
